@@ -2,9 +2,8 @@
    Model: Plant.v (CHPAsset / Plant incl. start / shutdown ramp profiles given in the frequency of the grid), compared with the
    implementation per instance.
    Theorems (any number of steps T, any durations): the rows are stated as the inequalities Plant.v emits (row shapes proved in
-   PlantProofs.v / PlantProfiles.v).  Partial: the release of the ramp rows during profiles (assets.py:1797-1827), separate heat
-   profiles, profiles in another frequency (interpolation) and the interplay "initial obligations by bounds" are covered by the
-   correspondence of the model builder and by the implementation oracle only. *)
+   PlantProofs.v / PlantProfiles.v).  Partial: separate heat profiles, profiles in another frequency (interpolation) and the interplay
+   "initial obligations by bounds" are covered by the correspondence of the model builder and by the implementation oracle only. *)
 From Coq Require Import QArith Qabs ZArith List Bool.
 From EAO Require Import Num LP Plant PlantProofs PlantRows PlantProfiles.
 Import ListNotations.
@@ -127,6 +126,39 @@ Theorem C06_shutdown_profile_bounds :
   nth j0 sd_lo 0 <= v /\ v <= nth j0 sd_hi 0.
 Proof. exact shutdown_profile_bounds. Qed.
 Print Assumptions C06_shutdown_profile_bounds.
+
+(* the ramp rows with their release terms (Plant.ramp_shut_terms / ramp_start_terms): without a flag in reach the ramp applies, with a
+   flag in reach the row follows from 0 <= output <= maximum capacity, i.e. the profile takes precedence *)
+Theorem C06_ramp_down_applies :
+  forall shut_idx T t Dn rmp maxc_prev x v_t v_prev on_prev,
+  0 <= v_t - v_prev + rmp * on_prev + sdot (ramp_shut_terms shut_idx T t Dn (maxc_prev - rmp)) x ->
+  (forall i, (i < Dn)%nat -> (t + i < T)%nat -> nth (shut_idx + t + i) x 0 == 0) ->
+  v_prev - v_t <= rmp * on_prev.
+Proof. exact ramp_down_applies. Qed.
+Print Assumptions C06_ramp_down_applies.
+Theorem C06_ramp_down_released :
+  forall shut_idx T t Dn rmp maxc_prev x v_t v_prev on_prev i0,
+  (i0 < Dn)%nat -> (t + i0 < T)%nat -> nth (shut_idx + t + i0) x 0 == 1 ->
+  (forall i, (i < Dn)%nat -> (t + i < T)%nat -> i <> i0 -> nth (shut_idx + t + i) x 0 == 0) ->
+  on_prev == 1 -> 0 <= v_t -> v_prev <= maxc_prev ->
+  0 <= v_t - v_prev + rmp * on_prev + sdot (ramp_shut_terms shut_idx T t Dn (maxc_prev - rmp)) x.
+Proof. exact ramp_down_released. Qed.
+Print Assumptions C06_ramp_down_released.
+Theorem C06_ramp_up_applies :
+  forall start_idx t S rmp maxc_t x v_t v_prev on_t,
+  v_t - v_prev - rmp * on_t + sdot (ramp_start_terms start_idx t S (rmp - maxc_t)) x <= 0 ->
+  (forall i, (i < S)%nat -> (i <= t)%nat -> nth (start_idx + t - i) x 0 == 0) ->
+  v_t - v_prev <= rmp * on_t.
+Proof. exact ramp_up_applies. Qed.
+Print Assumptions C06_ramp_up_applies.
+Theorem C06_ramp_up_released :
+  forall start_idx t S rmp maxc_t x v_t v_prev on_t i0,
+  (i0 < S)%nat -> (i0 <= t)%nat -> nth (start_idx + t - i0) x 0 == 1 ->
+  (forall i, (i < S)%nat -> (i <= t)%nat -> i <> i0 -> nth (start_idx + t - i) x 0 == 0) ->
+  on_t == 1 -> 0 <= v_prev -> v_t <= maxc_t ->
+  v_t - v_prev - rmp * on_t + sdot (ramp_start_terms start_idx t S (rmp - maxc_t)) x <= 0.
+Proof. exact ramp_up_released. Qed.
+Print Assumptions C06_ramp_up_released.
 
 (* start and shutdown flags defined together (and kept apart in every step): they are exactly the transitions *)
 Theorem C06_start_shutdown_flags_exact :
